@@ -1,4 +1,5 @@
-Require Import Base.Bytes Net.Frame Net.FrameProofs Net.Framed Net.FramedProofs Net.Concrete Props.C05.
+Require Import Base.Bytes Net.Frame Net.FrameProofs Net.Framed Net.FramedProofs Net.Concrete Gen.NetConsts.
+Require Import Props.C05.
 Local Open Scope N_scope.
 Check c05_session_independent_of_segmentation :
   forall (packet : Type) (parse : bytes -> res packet) (ver_of : packet -> option N)
@@ -19,7 +20,9 @@ Check c05_strict_prefix_needs_more :
   forall (packet : Type) (parse : bytes -> res packet) m f k, wf_frame m f -> (k < length f)%nat ->
   decode packet parse m (firstn k f) = NeedMore.
 Check c05_constants_tied : consts_tied = true.
+Check c05_model_state_is_the_struct : state_tied = true.
 Print Assumptions c05_session_independent_of_segmentation.
 Print Assumptions c05_complete_frame_decodes.
 Print Assumptions c05_strict_prefix_needs_more.
 Print Assumptions c05_constants_tied.
+Print Assumptions c05_model_state_is_the_struct.
